@@ -155,4 +155,122 @@ theorem Stack.pop_spec (s : Stack α) (h : s.Inv) :
       · simp; omega
       · rw [habs']; rw [hsz, habs]; simp
 
+theorem Stack.peek_spec (s : Stack α) (h : s.Inv) : s.peek = .ok (Spec.S.peek s.abs) := by
+  cases hn : s.nodes with
+  | nil =>
+    have habs : s.abs = [] := by simp [Stack.abs, hn]
+    have h0 : s.listSize = 0 := by rw [h.size, habs]; rfl
+    simp [Stack.peek, h0, habs, Spec.S.peek]
+  | cons b rest =>
+    obtain ⟨hlt, h0, hb, habs⟩ := Stack.abs_nonempty s h b rest hn
+    have hne : s.listSize ≠ 0 := by rw [h.size, habs]; simp; omega
+    have hcell := Stack.topCell_ok s b rest hn h0 (by simpa using hlt)
+    simp [Stack.peek, hne, hcell, habs, Spec.S.peek, Outcome.map]
+
+theorem Stack.below_cons (b : Array α) (rest : List (Array α)) :
+    Stack.below (b :: rest) = b.toList.reverse ++ Stack.below rest := by
+  simp [Stack.below]
+
+theorem Stack.containsLoop_spec (eq : α → α → Bool) (B : Nat) (v : α) :
+    ∀ (fuel : Nat) (b : Array α) (rest : List (Array α)) (i : Int),
+      b.size = B → (∀ b' ∈ rest, b'.size = B) → 0 ≤ i → i < B →
+      i.toNat + 1 + (Stack.below rest).length + 1 ≤ fuel →
+      Stack.containsLoop eq B v fuel (b :: rest) i =
+        .ok (((b.toList.take (i + 1).toNat).reverse ++ Stack.below rest).any (fun x => eq x v)) := by
+  intro fuel
+  induction fuel with
+  | zero => intro b rest i _ _ _ _ hf; omega
+  | succ fuel ih =>
+    intro b rest i hb hrest h0 hlt hf
+    have hlt' : i.toNat < b.toList.length := by simp; omega
+    have h3 : (i + 1).toNat = i.toNat + 1 := by omega
+    have hsz : i.toNat < b.size := by omega
+    obtain ⟨x, hget, hxl⟩ : ∃ x, b[i.toNat]? = some x ∧ b.toList[i.toNat]'hlt' = x :=
+      ⟨b[i.toNat], by simp [hsz], by simp⟩
+    rw [Stack.containsLoop]
+    simp only [h0, hsz, and_self, if_true, hget]
+    rw [h3, take_succ_getElem _ _ hlt', hxl]
+    by_cases he : eq x v = true
+    · simp [he]
+    · simp only [he]
+      by_cases hi : i - 1 < 0
+      · have hi0 : i.toNat = 0 := by omega
+        simp only [hi, if_true, hi0]
+        cases hr : rest with
+        | nil =>
+          cases fuel with
+          | zero => omega
+          | succ f => simp [Stack.containsLoop, Stack.below, he]
+        | cons b2 rest2 =>
+          have hb2 : b2.size = B := hrest b2 (by simp [hr])
+          rw [ih b2 rest2 (↑B - 1) hb2 (fun b' hb' => hrest b' (by simp [hr, hb'])) (by omega) (by omega)]
+          · have h2 : List.take B b2.toList = b2.toList := List.take_of_length_le (by simp [hb2])
+            simp [Stack.below_cons, h2, he]
+          · rw [hr, Stack.below_cons] at hf
+            simp at hf
+            omega
+      · simp only [hi, if_false]
+        rw [ih b rest (i - 1) hb hrest (by omega) (by omega) (by omega)]
+        simp [he]
+
+theorem Stack.below_length (B : Nat) (rest : List (Array α)) (h : ∀ b ∈ rest, b.size = B) :
+    (Stack.below rest).length = rest.length * B := by
+  induction rest with
+  | nil => simp [Stack.below]
+  | cons b rest ih =>
+    rw [Stack.below_cons, List.length_append, ih (fun b' hb' => h b' (by simp [hb'])), List.length_cons,
+      Nat.succ_mul]
+    simp [h b (by simp)]
+    omega
+
+theorem Stack.contains_spec (eq : α → α → Bool) (s : Stack α) (v : α) (h : s.Inv) :
+    s.contains eq v = .ok (Spec.S.contains eq s.abs v) := by
+  cases hn : s.nodes with
+  | nil =>
+    have habs : s.abs = [] := by simp [Stack.abs, hn]
+    simp [Stack.contains, hn, habs, Spec.S.contains, Stack.containsLoop]
+  | cons b rest =>
+    obtain ⟨hpos, hbl, hnil, hcons, hsz⟩ := h
+    have ht := hcons (by simp [hn])
+    have hb : b.size = s.nodeSize := hbl b (by simp [hn])
+    have hrest : ∀ b' ∈ rest, b'.size = s.nodeSize := fun b' hb' => hbl b' (by simp [hn, hb'])
+    have hlen := Stack.below_length s.nodeSize rest hrest
+    simp only [Stack.contains, hn]
+    rw [Stack.containsLoop_spec eq s.nodeSize v _ b rest s.topIndex hb hrest ht.1 ht.2]
+    · simp [Stack.abs, hn, Spec.S.contains]
+    · rw [hlen]
+      simp only [List.length_cons, Nat.add_mul, Nat.mul_add]
+      omega
+
+/-- the simulation relation: the invariant holds and the live cells are the Spec's list -/
+def Stack.Rel (s : Stack α) (l : Spec.S α) : Prop := s.Inv ∧ s.abs = l
+
+theorem Stack.step_refines (zero : α) (eq : α → α → Bool) (s : Stack α) (l : Spec.S α) (op : Op α)
+    (h : Stack.Rel s l) :
+    ∃ s', Stack.step zero eq s op = .ok (s', (Spec.S.step eq l op).2) ∧
+      Stack.Rel s' (Spec.S.step eq l op).1 := by
+  obtain ⟨hinv, rfl⟩ := h
+  cases op with
+  | add v =>
+    obtain ⟨s', h1, h2, h3, _⟩ := Stack.push_spec zero s v hinv
+    exact ⟨s', by simp [Stack.step, h1, Outcome.map, Spec.S.step], h2, by simp [Spec.S.step, Spec.S.push, h3]⟩
+  | remove =>
+    obtain ⟨s', h1, h2, h3, _⟩ := Stack.pop_spec s hinv
+    exact ⟨s', by simp [Stack.step, h1, Outcome.map, Spec.S.step], h2, by simp [Spec.S.step, h3]⟩
+  | peek =>
+    exact ⟨s, by simp [Stack.step, Stack.peek_spec s hinv, Outcome.map, Spec.S.step], hinv, rfl⟩
+  | contains v =>
+    exact ⟨s, by simp [Stack.step, Stack.contains_spec eq s v hinv, Outcome.map, Spec.S.step], hinv, rfl⟩
+  | size =>
+    exact ⟨s, by simp [Stack.step, Stack.size, hinv.size, Spec.S.step, Spec.S.size], hinv, rfl⟩
+  | isEmpty =>
+    refine ⟨s, ?_, hinv, rfl⟩
+    simp [Stack.step, Stack.isEmpty, hinv.size, Spec.S.step, Spec.S.isEmpty]
+    cases s.abs <;> simp
+    omega
+
+theorem Stack.run_refines (zero : α) (eq : α → α → Bool) (B : Nat) (hB : 1 ≤ B) (ops : List (Op α)) :
+    Stack.run zero eq (Stack.new B) ops = (Spec.S.run eq [] ops).map Outcome.ok :=
+  runTrace_refines _ _ Stack.Rel (Stack.step_refines zero eq) ops _ _ ⟨Stack.new_inv B hB, Stack.new_abs B⟩
+
 end AlgoVerif.C18
